@@ -446,6 +446,8 @@ def main(tier, seed):
     run.assume('pyvc proxies/rewrites (shape-typed strings, float proxy)', 'z3 soundness', 'digit contents ASCII',
                "'%.nf' % x and float(str) correctly rounded (CPython)", 'text shapes bounded: <= 3 fields of 1-2 digits, <= 3 decimals',
                'speed limits checked with a 0.01 m/s tolerance (the code compares binary quotients)')
+    from pyvc.frames import frame_obligations
+    frame_obligations(run, [utils().check_performance_for_discipline, utils().field_event_record, utils().get_distance])
     shapes = text_shapes(tier)
     J = []
     # one discipline on each side of every distance threshold of the cascade (200, 400, 800), the three with the h:m:s re-reading, road, field
